@@ -110,7 +110,7 @@ def _chunk(specs):
     return [(sig, msg, s) for s in specs for sig, msg in check_value(s)]
 
 
-GRAMMAR = {"quick": "thorough", "thorough": "deep"}  # the term grammars are cheap: quick already uses the larger one
+GRAMMAR = {"quick": "thorough", "thorough": "xdeep"}  # the term grammars are cheap: quick already uses the larger one
 
 
 def run(tier: str, seed: int) -> Result:
